@@ -229,7 +229,13 @@ func vpStubDecode(d *json.Decoder, v any) error {
 			*p = nil
 			return nil
 		case vpJObj:
-			*p = vpJGeneric(t).(map[string]any)
+			// encoding/json reuses a non-nil map and keeps its existing entries
+			if *p == nil {
+				*p = map[string]any{}
+			}
+			for k, v := range vpJGeneric(t).(map[string]any) {
+				(*p)[k] = v
+			}
 			return nil
 		}
 		return vpErrJSON
